@@ -24,6 +24,7 @@ type thread struct {
 	ready   func() bool // nil: runnable; else runnable when it returns true
 	started bool
 	held    map[*value]int // locks held (for lockset / self-deadlock diagnostics)
+	stack   []string       // call stack of this thread (diagnostics)
 }
 
 type scheduler struct {
@@ -35,6 +36,7 @@ type scheduler struct {
 	wgs      map[*value]*int
 	deadlock bool
 	yields   int
+	forkPick bool
 }
 
 type lockState struct {
@@ -132,8 +134,8 @@ func (s *scheduler) pick(not *thread) *thread {
 	if len(cands) == 0 {
 		return nil
 	}
-	if len(cands) == 1 {
-		return cands[0]
+	if len(cands) == 1 || !s.forkPick {
+		return cands[0] // default schedule: lowest thread id first (a legal schedule); vSchedFork(true) explores every choice
 	}
 	return cands[X.choose("sched", len(cands))]
 }
@@ -517,6 +519,7 @@ func init() {
 		"(*time.Ticker).Stop":    extNop,
 		cometPath + ".vYield":    func(fr *frame, a []value) value { schedYieldAll(); return nil },
 		cometPath + ".vPreempt":  func(fr *frame, a []value) value { S.preempt = asInt(a[0]); return nil },
+		cometPath + ".vSchedFork": func(fr *frame, a []value) value { S.forkPick = a[0].(bool); return nil },
 		cometPath + ".vThreads":  func(fr *frame, a []value) value { return len(S.threads) },
 	} {
 		externals[k] = v
